@@ -938,6 +938,7 @@ impl CommitEnv for LsmCommitEnv {
 		// A batch that cannot fit even an empty memtable would be logged and then
 		// fail to apply half-way: the commit would report an error while part of it
 		// became visible, and the logged record could not be replayed on reopen.
+		processed_batch.heights = MemTable::draw_heights(&processed_batch);
 		if !MemTable::fits_when_empty(&processed_batch, self.core.opts.max_memtable_size) {
 			return Err(Error::BatchTooLarge);
 		}
